@@ -274,6 +274,8 @@ func scenariosFor(tier string) []vrt.Scenario {
 		add(b, s2, ms(30), sl(100), cancel, stop)
 		add(b, s2, ms(30), sl(310), restart, sl(300), stop) // Restart while an invocation of the later schedule is in flight
 		add(b, s2, ms(120), sl(400), restart, sl(900), stop)
+		out = append(out, scenario(cfg{s2, ms(30), []step{sl(150), restart, sl(300), stop}}).WithPlainPoints(1))
+		out = append(out, scenario(cfg{s1, ms(30), []step{sl(110), stop}}).WithPlainPoints(1))
 		return out
 	}
 	for _, fn := range []time.Duration{0, ms(30), ms(120)} {
@@ -291,6 +293,9 @@ func scenariosFor(tier string) []vrt.Scenario {
 	}
 	add(2, s3, 0, sl(1300), stop)
 	add(2, s3, ms(30), sl(1001), restart, sl(90), stop)
+	out = append(out, scenario(cfg{s2, ms(30), []step{sl(150), restart, sl(300), stop}}).WithPlainPoints(2))
+	out = append(out, scenario(cfg{s1, ms(30), []step{sl(110), stop}}).WithPlainPoints(2))
+	out = append(out, scenario(cfg{s2, 0, []step{sl(260), cancel, stop}}).WithPlainPoints(2))
 	for _, fn := range []time.Duration{ms(30), ms(120)} {
 		for _, d := range []int{300, 310, 329, 330, 400} {
 			add(2, s2, fn, sl(d), restart, sl(900), stop) // Restart around an in-flight invocation of the later schedule
